@@ -7,22 +7,26 @@ namespace TdModel.C29
 
 def Reachable (cfg : Cfg) (n : Nat) (s : State) : Prop := ∃ as, run cfg (init n) as = some s
 
-/-- Per-request consistency. -/
-def ReqOK (s : State) (r : Nat) (q : Req) : Prop :=
-  (q.phase = .idle ∨ q.phase = .waitConn → q.ackSeen = none) ∧
+/-- Per-request consistency (`snap` = the `connChanged` snapshot is taken before `conn.Invoke`). -/
+def ReqOK (snap : Bool) (s : State) (r : Nat) (q : Req) : Prop :=
+  ((q.phase = .idle ∨ q.phase = .ready ∨ (∃ k, q.phase = .bound k) ∨ (∃ w, q.phase = .parked w)) → q.ackSeen = none) ∧
   (∀ k, q.phase = .sent k → q.ackSeen = none ∧ k ≤ s.epoch ∧ ∀ k', (r, k') ∈ s.arrivals → k' ≤ k) ∧
   (∀ k, q.phase = .acked k → q.ackSeen = some k) ∧
   (∀ a, q.ackSeen = some a → a ≤ s.epoch ∧ ∀ k', (r, k') ∈ s.arrivals → k' ≤ a) ∧
   (q.phase = .doneErr →
     (q.reason = .ackedLost ∧ q.ackSeen ≠ none) ∨ (q.reason = .closed ∧ s.closed = true) ∨ q.reason = .sendError) ∧
-  (q.phase = .idle → ∀ k', (r, k') ∉ s.arrivals)
+  (q.phase = .idle → ∀ k', (r, k') ∉ s.arrivals) ∧
+  (∀ k, q.phase = .bound k → k ≤ s.epoch ∧ ∀ k', (r, k') ∈ s.arrivals → k' < k) ∧
+  (∀ w, q.phase = .parked w → w ≤ s.epoch ∧ (snap = true → w = s.epoch → s.alive = false) ∧
+    ∀ k', (r, k') ∈ s.arrivals → k' ≤ w) ∧
+  (q.phase = .ready → ∀ k', (r, k') ∉ s.arrivals)
 
-structure Inv (s : State) : Prop where
-  req : ∀ (r : Nat) (q : Req), s.reqs[r]? = some q → ReqOK s r q
+structure Inv (snap : Bool) (s : State) : Prop where
+  req : ∀ (r : Nat) (q : Req), s.reqs[r]? = some q → ReqOK snap s r q
   le : ∀ (r k : Nat), (r, k) ∈ s.arrivals → k ≤ s.epoch
   nodup : s.arrivals.Nodup
 
-theorem inv_init (n : Nat) : Inv (init n) := by
+theorem inv_init (snap : Bool) (n : Nat) : Inv snap (init n) := by
   refine ⟨?_, by intro r k h; simp [init] at h, by simp [init]⟩
   intro r q h
   simp [init, List.getElem?_replicate] at h
@@ -34,9 +38,9 @@ theorem lt_of_getElem? {α : Type} {l : List α} {i : Nat} {x : α} (h : l[i]? =
   · exact h'
   · rw [List.getElem?_eq_none h'] at h; cases h
 
-/-- Changing one request (with everything else — epoch, arrivals, closed — unchanged). -/
-theorem inv_setReq {s : State} (hI : Inv s) (r : Nat) (q q' : Req) (hq : s.reqs[r]? = some q)
-    (h' : ReqOK s r q') : Inv (setReq s r q') := by
+/-- Changing one request (with everything else unchanged). -/
+theorem inv_setReq {snap : Bool} {s : State} (hI : Inv snap s) (r : Nat) (q q' : Req) (hq : s.reqs[r]? = some q)
+    (h' : ReqOK snap s r q') : Inv snap (setReq s r q') := by
   have hlt := lt_of_getElem? hq
   refine ⟨?_, hI.le, hI.nodup⟩
   intro r2 q2 h2
@@ -49,12 +53,13 @@ theorem inv_setReq {s : State} (hI : Inv s) (r : Nat) (q q' : Req) (hq : s.reqs[
   · simp [hr] at h2
     exact hI.req r2 q2 h2
 
-/-- `ReqOK` only depends on epoch, arrivals and closed through monotone facts. -/
-theorem reqOK_mono {s s' : State} {r : Nat} {q : Req} (h : ReqOK s r q)
-    (he : s.epoch ≤ s'.epoch) (ha : s'.arrivals = s.arrivals) (hc : s.closed = true → s'.closed = true) :
-    ReqOK s' r q := by
-  obtain ⟨h1, h2, h3, h4, h5, h6⟩ := h
-  refine ⟨h1, ?_, h3, ?_, ?_, ?_⟩
+/-- `ReqOK` depends on the environment only through monotone facts. -/
+theorem reqOK_mono {snap : Bool} {s s' : State} {r : Nat} {q : Req} (h : ReqOK snap s r q)
+    (he : s.epoch ≤ s'.epoch) (ha : s'.arrivals = s.arrivals) (hc : s.closed = true → s'.closed = true)
+    (hal : s'.epoch = s.epoch → s.alive = false → s'.alive = false) :
+    ReqOK snap s' r q := by
+  obtain ⟨h1, h2, h3, h4, h5, h6, h7, h8, h9⟩ := h
+  refine ⟨h1, ?_, h3, ?_, ?_, ?_, ?_, ?_, ?_⟩
   · intro k hk
     obtain ⟨a, b, c⟩ := h2 k hk
     exact ⟨a, Nat.le_trans b he, by rw [ha]; exact c⟩
@@ -67,13 +72,24 @@ theorem reqOK_mono {s s' : State} {r : Nat} {q : Req} (h : ReqOK s r q)
     · exact Or.inr (Or.inl ⟨h, hc hcl⟩)
     · exact Or.inr (Or.inr h)
   · rw [ha]; exact h6
+  · intro k hk
+    obtain ⟨a, b⟩ := h7 k hk
+    exact ⟨Nat.le_trans a he, by rw [ha]; exact b⟩
+  · intro w hw
+    obtain ⟨a, b, c⟩ := h8 w hw
+    refine ⟨Nat.le_trans a he, ?_, by rw [ha]; exact c⟩
+    intro hs hwe
+    have hee : s'.epoch = s.epoch := by omega
+    exact hal hee (b hs (by omega))
+  · rw [ha]; exact h9
 
-theorem inv_mono {s s' : State} (hI : Inv s) (hr : s'.reqs = s.reqs)
-    (he : s.epoch ≤ s'.epoch) (ha : s'.arrivals = s.arrivals) (hc : s.closed = true → s'.closed = true) : Inv s' := by
+theorem inv_mono {snap : Bool} {s s' : State} (hI : Inv snap s) (hr : s'.reqs = s.reqs)
+    (he : s.epoch ≤ s'.epoch) (ha : s'.arrivals = s.arrivals) (hc : s.closed = true → s'.closed = true)
+    (hal : s'.epoch = s.epoch → s.alive = false → s'.alive = false) : Inv snap s' := by
   refine ⟨?_, ?_, by rw [ha]; exact hI.nodup⟩
   · intro r q h
     rw [hr] at h
-    exact reqOK_mono (hI.req r q h) he ha hc
+    exact reqOK_mono (hI.req r q h) he ha hc hal
   · intro r k h
     rw [ha] at h
     exact Nat.le_trans (hI.le r k h) he
